@@ -307,6 +307,7 @@ def _reaction_from_dict(reaction: Dict, model: Model) -> Reaction:
 
     """
     new_reaction = Reaction()
+    bounds = {}
     for k, v in reaction.items():
         if k in {"objective_coefficient", "reversibility", "reaction"}:
             continue
@@ -319,9 +320,14 @@ def _reaction_from_dict(reaction: Dict, model: Model) -> Reaction:
             )
         else:
             if k == "lower_bound" or k == "upper_bound":
-                setattr(new_reaction, k, float(v))
+                bounds[k] = float(v)
             else:
                 setattr(new_reaction, k, v)
+    # Set the bounds together, each one alone may conflict with a default bound.
+    new_reaction.bounds = (
+        bounds.get("lower_bound", new_reaction.lower_bound),
+        bounds.get("upper_bound", new_reaction.upper_bound),
+    )
     return new_reaction
 
 
